@@ -45,11 +45,16 @@ func kvGen(t *rapid.T, prefix, label string) []prog.KV {
 		for j := 0; j < nv; j++ {
 			var v string
 			if bin {
-				v = connect.EncodeBinaryHeader(rapid.SliceOfN(rapid.Byte(), 0, 10).Draw(t, label+"Raw"))
+				maxRaw := rapid.SampledFrom([]int{10, 10, 10, 200, 1500}).Draw(t, label+"RawMax")
+				v = connect.EncodeBinaryHeader(rapid.SliceOfN(rapid.Byte(), 0, maxRaw).Draw(t, label+"Raw"))
 			} else if rapid.IntRange(0, 6).Draw(t, label+"Empty") == 0 {
 				v = ""
 			} else {
-				v = rapid.StringMatching(`[!-~]([ -~]{0,10}[!-~])?`).Draw(t, label+"V")
+				if rapid.IntRange(0, 9).Draw(t, label+"LongV") == 0 {
+					v = rapid.StringMatching(`[!-~][ -~]{100,600}[!-~]`).Draw(t, label+"VL")
+				} else {
+					v = rapid.StringMatching(`[!-~]([ -~]{0,10}[!-~])?`).Draw(t, label+"V")
+				}
 			}
 			kvs = append(kvs, prog.KV{K: k, V: v})
 		}
